@@ -37,6 +37,12 @@ class InterpolatedCurveBase(FunctionCurveBase, abc.ABC):
         return len(self.array) - 1
 
     @property
+    def _scan_count(self) -> int:
+        # each segment between given points is sampled; a spline through unevenly
+        # spaced points can swing a lot within a single one
+        return max(101, 40 * self.segments + 1)
+
+    @property
     def parts(self):
         # This is called when a transform of any kind is requested on
         # this class; that means the interpolation function
